@@ -38,11 +38,15 @@ class Gen:
         self.hostile = profile == 'hostile'
         self.allow = set(allow)
         self.docs = self.hostile if docs is None else docs
+        # a small theme of reserved-ish names reused across namespaces, types and fields of one set, so the same token
+        # shows up in different identifier roles (path component, type name, field, constant)
+        self.theme = self.r.sample(KW, 6)
 
     def name(self, used, cap=False):
         r = self.r
         for _ in range(200):
-            n = r.choice(KW if (self.hostile and r.random() < 0.35) else PLAIN)
+            c = r.random()
+            n = r.choice(self.theme if (self.hostile and c < 0.3) else KW if (self.hostile and c < 0.45) else PLAIN)
             if r.random() < 0.4:
                 n += str(r.randint(0, 9))
             if cap:
